@@ -53,6 +53,37 @@ theorem status_ne_crash (fixed : Bool) {s : St} (h : Md5Only s) (t : Name) : s.s
                 (repeat' split at hp) <;> simp at hp
           · split at hfv <;> cases hfv
 
+theorem depIs_crash_false {r : Rcd} (hr : Md5Shape r) (fs : FS) (p : Path) : depIs .crash .md5 r fs p = false := by
+  simp only [depIs]
+  cases hf : fs p with
+  | none => rfl
+  | some cur =>
+    simp only [depVerdict]
+    cases hs : r.fstate p with
+    | none => simp
+    | some st =>
+      obtain ⟨m, sz, c, hst⟩ := hr p st hs
+      subst hst
+      simp only [checkModified]
+      (repeat' split) <;> simp
+
+theorem logRcd_shape {r : Rcd} (hr : Md5Shape r) (c : Checker) : Md5Shape (logRcd c r) := by
+  unfold logRcd; split
+  · exact md5shape_empty
+  · exact hr
+
+theorem statusLog_ne_crash {s : St} (h : Md5Only s) (t : Name) : s.statusLog t ≠ .crash := by
+  intro hc
+  unfold St.statusLog statusLog at hc
+  rw [h.ck] at hc
+  have hno : (s.defs t).deps.any (depIs .crash .md5 (logRcd .md5 (s.rcd t)) s.fs) = false := by
+    rw [List.any_eq_false]
+    intro p _
+    simp [depIs_crash_false (logRcd_shape (h.shape t) .md5) s.fs p]
+  rw [hno] at hc
+  simp only [Bool.false_eq_true, if_false] at hc
+  (repeat' split at hc) <;> cases hc
+
 theorem save_ne_crash {r : Rcd} (hr : Md5Shape r) (deps : List Path) (fs : FS) (vals : Values) (res : Option Res) :
     saveSuccess .md5 deps r fs vals res ≠ .crash := by
   intro hc
@@ -168,6 +199,14 @@ theorem step_md5 (fixed : Bool) {s : St} (op : Op) (hop : op.isSwitch = false) (
     | unmet t => exact erase_md5 t h
     | forget t => exact erase_md5 t h
     | switchChecker c => simp [Op.isSwitch] at hop
+    | info t =>
+      simp only [info]
+      have := statusLog_ne_crash h t
+      split
+      · rename_i hc; simp at hc; exact absurd hc this
+      · split
+        · exact erase_md5 t h
+        · exact h
     | ignore t =>
       refine ⟨h.ck, ?_, h.alive⟩
       intro k
